@@ -138,8 +138,17 @@ struct Node {
         be.c = &ctx; be.led = &led; be.ws = memtype == 16 ? 2 : 1;
         memset(&mf, 0, sizeof mf);
         regp_init(&p);
-        if (memtype == 16) regp_use_memory16(&p, be_r16, be_w16); else regp_use_memory8(&p, be_r8, be_w8);
-        regp_use_channel(&p, ser ? RP_EP_SERIAL : RP_EP_TCP, src.make(), snk.make());
+        reconfigure(0);
+    }
+    // (re-)apply the effective configuration, optionally after a history of other settings (instances get re-configured;
+    // only the last call of each kind counts)
+    void reconfigure(unsigned history) {
+        if (history & 1) regp_use_memory8(&p, be_r8, be_w8);
+        if (history & 2) regp_use_memory16(&p, be_r16, be_w16);
+        if (history & 4) regp_use_channel(&p, serial ? RP_EP_TCP : RP_EP_SERIAL, source_empty, sink_null);
+        if (history & 8) regp_use_allocator(&p, &rp_default_allocator);
+        if (mt == 16) regp_use_memory16(&p, be_r16, be_w16); else regp_use_memory8(&p, be_r8, be_w8);
+        regp_use_channel(&p, serial ? RP_EP_SERIAL : RP_EP_TCP, src.make(), snk.make());
         ba.driver = &led;
         regp_use_allocator(&p, &ba);
     }
@@ -235,7 +244,7 @@ struct RegpHarness : Harness {
         std::vector<std::string> v;
         if (p == "C06") { for (int k = 0; k < 12; ++k) { v.push_back("verdict_read_" + std::to_string(k)); v.push_back("verdict_write_" + std::to_string(k)); }
             for (const char *s : {"pipelined_3_or_more", "sequence_wrap", "word_size_mismatch", "response_ignored", "meta_ignored", "mem8", "mem16", "serial", "tcp", "zero_block_size", "request_from_real_client", "register_table_verdict_mapped", "reception_failure_inside_session", "block_recycled_with_stale_content", "reply_received_and_ignored_by_client"}) v.push_back(s); }
-        else if (p == "C07") for (const char *s : {"flip1", "flip2", "burst", "truncate", "extend", "header_word_flip", "class_header_encoding", "class_header_crc", "class_payload_size", "class_payload_crc", "raw_accept", "raw_tcp", "option_plcrc_without_hdcrc", "odd_payload_ws16", "payload_fault_answered_with_error_response"}) v.push_back(s);
+        else if (p == "C07") for (const char *s : {"flip1", "flip2", "burst", "truncate", "extend", "header_word_flip", "class_header_encoding", "class_header_crc", "class_payload_size", "class_payload_crc", "raw_accept", "raw_tcp", "option_plcrc_without_hdcrc", "odd_payload_ws16", "payload_fault_answered_with_error_response", "classified_from_fallback_buffer"}) v.push_back(s);
         else if (p == "C08") { for (const char *s : {"req_read8", "req_read16", "req_write8", "req_write16", "resp_ack_payload", "resp_ack_empty", "resp_meta", "payload_with_slip_control_octets", "varint_prefix_2_octets", "sequence_wrap", "roundtrip_accepted"}) v.push_back(s);
             for (int k = 1; k < 12; ++k) v.push_back("resp_code_" + std::to_string(k)); }
         else for (const char *s : {"alloc_failure_with_parsable_header", "alloc_failure_without_parsable_header", "empty_frame", "short_frame", "frame_len_room_minus_1", "frame_len_room", "frame_len_room_plus_1", "rx_overflow", "read_at_limit_minus_1", "read_at_limit", "read_at_limit_plus_1", "tx_overflow", "channel_error_mid_frame", "odd_payload_ws16", "slab_allocator", "block_size_minimum", "served_after_fault", "illegal_slip_sequence_on_the_wire"}) v.push_back(s);
@@ -308,7 +317,7 @@ struct RegpHarness : Harness {
         bool serial = prop == "C07" ? !r.chance(1, 5) : r.chance(1, 2);
         int mt = r.chance(1, 2) ? 16 : 8;
         p["serial"] = serial; p["mt"] = mt;
-        p["src_octet"] = r.chance(1, 2); p["snk_octet"] = r.chance(1, 2); p["slab"] = r.chance(1, 3); p["recycle"] = r.chance(1, 2);
+        p["src_octet"] = r.chance(1, 2); p["snk_octet"] = r.chance(1, 2); p["slab"] = r.chance(1, 3); p["recycle"] = r.chance(1, 2); p["confhist"] = (long long)(r.chance(1, 2) ? 0 : r.below(16));
         size_t minblock = sizeof(RPFrame) + 1;
         int64_t block = 128;
         if (prop == "C09" || r.chance(1, 3)) { switch (r.below(5)) { case 0: block = (int64_t)minblock + r.range(0, 3); break; case 1: block = (int64_t)minblock + r.range(12, 40); break; case 2: block = r.range(100, 200); break; case 3: block = t.thorough() ? r.range(200, 20000) : r.range(200, 600); break; default: block = 128; } }
@@ -371,6 +380,7 @@ struct RegpHarness : Harness {
                     default: { f.options |= OPT_WS16; f.type = r.chance(1, 2) ? T_WREQ : T_RRESP; f.meta = 0; f.payload = gen_payload(r, 2 * (size_t)r.range(0, 4) + 1); f.bsize = (uint32_t)(f.payload.size() / 2 + r.below(2)); b = encode(f, true); }  // odd payload with 16-bit words
                     }
                     o["raw"] = hexs(b);
+                    if (r.chance(1, 6)) o["allocfail"] = 1;
                 }
                 ops.push(o);
             }
@@ -430,11 +440,11 @@ struct RegpHarness : Harness {
     }
 
     // ------------------------------------------------------------ execution
-    struct Cfg { bool serial; int mt; size_t block; bool slab, so, ko; uint16_t seq0; bool recycle; };
+    struct Cfg { bool serial; int mt; size_t block; bool slab, so, ko; uint16_t seq0; bool recycle; unsigned confhist; };
     static Cfg cfg_of(const Json &plan) {
         Cfg c; c.serial = plan.geti("serial") != 0; c.mt = plan.geti("mt", 16) == 8 ? 8 : 16;
         int64_t b = plan.geti("block", 128); if (b < (int64_t)sizeof(RPFrame) + 1) b = (int64_t)sizeof(RPFrame) + 1; if (b > 70000) b = 70000; c.block = (size_t)b;
-        c.slab = plan.geti("slab") != 0; c.so = plan.geti("src_octet") != 0; c.ko = plan.geti("snk_octet") != 0; c.seq0 = (uint16_t)plan.geti("seq0"); c.recycle = plan.geti("recycle") != 0;
+        c.slab = plan.geti("slab") != 0; c.so = plan.geti("src_octet") != 0; c.ko = plan.geti("snk_octet") != 0; c.seq0 = (uint16_t)plan.geti("seq0"); c.recycle = plan.geti("recycle") != 0; c.confhist = (unsigned)(plan.geti("confhist") & 15);
         return c;
     }
     static void load_frag(WireSrc &s, const Json &plan) { Json j = Json::arr(); const Json &f = plan.get("frag"); for (size_t i = 0; i < f.size(); ++i) { int64_t v = f.ati(i, 1); j.push((long long)(v < 1 ? 1 : v)); } s.frag.load(j); }
@@ -546,9 +556,9 @@ struct RegpHarness : Harness {
         if (cf.block < sizeof(RPFrame) + 41) cf.block = sizeof(RPFrame) + 41;   // receive/transmit boundary cases belong to C09
         Wire c2s, s2c, dummy;
         Node srv(c, &c2s, &s2c, cf.serial, cf.mt, cf.block, cf.slab, cf.so, cf.ko);
-        srv.led.recycle = cf.recycle;
+        srv.led.recycle = cf.recycle; srv.reconfigure(cf.confhist);
         Node cli(c, &s2c, &c2s, cf.serial, cf.mt, cf.block + 64, false, cf.so, cf.ko);   // the client emits requests and receives the replies
-        (void)dummy;
+        (void)dummy; cli.reconfigure(cf.confhist >> 1);
         load_frag(srv.src, plan);
         cli.p.session.sequence = cf.seq0;
         COUNT(cf.serial ? "probe.serial" : "probe.tcp"); COUNT(cf.mt == 16 ? "probe.mem16" : "probe.mem8");
@@ -642,16 +652,20 @@ struct RegpHarness : Harness {
             const Json &o = ops.at(oi);
             if (!only.is_null() && (size_t)only.geti("op") != oi) continue;
             const std::string k = o.gets("k");
+            const bool alloc_fails = o.geti("allocfail") != 0;   // the frame arrives while the allocator is exhausted: classified from the fallback buffer
             auto deliver = [&](const Bytes &raw, const Json &pin, const char *site, bool expect_detected) -> bool {
                 Wire c2s, s2c;
                 Node srv(c, &c2s, &s2c, cf.serial, cf.mt, cf.block, cf.slab, cf.so, cf.ko);
+                srv.reconfigure(cf.confhist);
+                if (alloc_fails) { Json one = Json::arr(); one.push(1); srv.led.fail.load(one); }
                 load_frag(srv.src, plan);
                 Bytes w = frame_on(cf.serial, raw); c2s.data = w;
                 c.set_pin(pin.str());
                 Frame f; Verdict v = classify(raw, f);
                 Served S = serve(srv, f.payload.size());
                 size_t nv = c.viol.size();
-                Ctxt x; x.cf = &cf;
+                Ctxt x; x.cf = &cf; x.alloc_failed = alloc_fails && !raw.empty();
+                if (x.alloc_failed) COUNT("probe.classified_from_fallback_buffer");
                 bool ok = judge(c, srv, raw, S, x, site);
                 if (ok && expect_detected && v == V_ACCEPT) {
                     // CRC mathematics does not cover this corruption: recorded, enumeration continues (the receiver agreed with the reference)
@@ -722,6 +736,7 @@ struct RegpHarness : Harness {
         size_t block = 70000;
         Node A(c, &nil, &a2b, cf.serial, cf.mt, 256, false, false, cf.ko);             // emitter
         Node B(c, &a2b, &b2a, cf.serial, cf.mt, block, cf.slab, cf.so, false);          // peer receiver
+        A.reconfigure(cf.confhist); B.reconfigure(cf.confhist >> 2);
         load_frag(B.src, plan);
         A.p.session.sequence = cf.seq0;
         uint16_t expect_seq = cf.seq0;
@@ -812,7 +827,7 @@ struct RegpHarness : Harness {
         Cfg cf = cfg_of(plan);
         Wire c2s, s2c;
         Node srv(c, &c2s, &s2c, cf.serial, cf.mt, cf.block, cf.slab, cf.so, cf.ko);
-        srv.led.recycle = cf.recycle;
+        srv.led.recycle = cf.recycle; srv.reconfigure(cf.confhist);
         load_frag(srv.src, plan);
         srv.led.fail.load(plan.get("allocfail"));
         if (cf.slab) COUNT("probe.slab_allocator");
